@@ -29,6 +29,8 @@ def sql(e):
         if e.get("br"):      # bracket access: base['key with any text']
             return e["p"][0] + "".join("['%s']" % k for k in e["p"][1:])
         return ".".join(e["p"])
+    if t == "path2":     # general nested access: col.name['key']["key"][i][-i]
+        return e["c"] + "".join("." + pt["n"] if pt["k"] == "f" else "[%d]" % pt["i"] if pt["k"] == "i" else ('["%s"]' if pt.get("dq") else "['%s']") % pt["n"] for pt in e["parts"])
     if t == "num":
         return str(e["n"]) if e["d"] == 1 else repr(e["n"] / e["d"])
     if t == "str": return ('"' + "".join(e["cs"]) + '"') if e.get("dq") else ("'" + "".join(e["cs"]) + "'")
